@@ -51,12 +51,14 @@ theorem arm_retryable : armFor sendRPCArms .retryable =
            continues := true, incs := [], marks := [] } := by decide
 
 theorem arm_server : armFor sendRPCArms .server =
-    some { types := ["ServerError"], sleeps := true, guardVar := "serverErrorCount", guardN := 1,
+    some { types := ["NotServingRegionError", "ServerError"], sleeps := true, guardVar := "serverErrorCount", guardN := 1,
            continues := true, incs := ["serverErrorCount"], marks := [] } := by decide
 
+/-- since fix (NotServingRegionError shares the ServerError arm): a region that passes its probe
+and refuses the request every time is not retried in a hot loop any more -/
 theorem arm_nsre : armFor sendRPCArms .nsre =
-    some { types := ["NotServingRegionError"], sleeps := false, guardVar := "", guardN := 0,
-           continues := true, incs := [], marks := [] } := by decide
+    some { types := ["NotServingRegionError", "ServerError"], sleeps := true, guardVar := "serverErrorCount", guardN := 1,
+           continues := true, incs := ["serverErrorCount"], marks := [] } := by decide
 
 theorem arm_ok : armFor sendRPCArms .ok = none := by decide
 theorem arm_fatal : armFor sendRPCArms .fatal = none := by decide
@@ -118,10 +120,17 @@ theorem sendRPC_server_imm (j : Nat) (s : Int) (hs : ¬ s > 1) (rest : List Cls)
   simp only [runRPC, sendRPC, arm_server]
   simp [hs]
 
-theorem sendRPC_nsre (j : Nat) (s : Int) (rest : List Cls) :
-    runRPC ⟨sched j, s⟩ (.nsre :: rest) = .attempt .nsre :: runRPC ⟨sched j, s⟩ rest := by
+theorem sendRPC_nsre_sleep (j : Nat) (s : Int) (hs : s > 1) (rest : List Cls) :
+    runRPC ⟨sched j, s⟩ (.nsre :: rest) =
+      .attempt .nsre :: .sleep (sched j) :: runRPC ⟨sched (j + 1), s + 1⟩ rest := by
+  simp only [runRPC, sendRPC, arm_nsre, sleepAndIncrease_pos _ _ (sched_pos j)]
+  simp [sched, hs]
+
+theorem sendRPC_nsre_imm (j : Nat) (s : Int) (hs : ¬ s > 1) (rest : List Cls) :
+    runRPC ⟨sched j, s⟩ (.nsre :: rest) =
+      .attempt .nsre :: runRPC ⟨sched j, s + 1⟩ rest := by
   simp only [runRPC, sendRPC, arm_nsre]
-  simp
+  simp [hs]
 
 theorem immediateRetries_attempt_runRPC (c c' : Cls) (st : LoopSt) (outs : List Cls) :
     immediateRetries c (.attempt c' :: runRPC st outs) =
